@@ -79,14 +79,15 @@ Record st (T : Type) := mkst {
 Arguments mkst {T}. Arguments reg {T}. Arguments own_mod {T}. Arguments en {T}.
 Arguments erc20_on {T}. Arguments hook_on {T}. Arguments cbal {T}. Arguments supply {T}. Arguments tok {T}.
 
-(** the two semantics of DESIGN 2.3: [impl] is the pinned tree, [spec] what the
-    property demands *)
+(** the semantics of DESIGN 2.3: [impl] is /repo as it is, [spec] what the
+    property demands, [pre_fix] the tree before the "fix:" commit 1c369cb *)
 Record cfg := mkcfg {
   hook_ext : bool;       (* the EVM hook mints coins for externally owned pairs on a bare Transfer log (finding K7) *)
-  wrap_false_ok : bool   (* the MsgSend wrapper treats "transfer returned false" as success *)
+  wrap_false_ok : bool   (* the MsgSend wrapper treats "transfer returned false" as success (repaired by 1c369cb) *)
 }.
-Definition impl : cfg := mkcfg true true.
+Definition impl : cfg := mkcfg true false.
 Definition spec : cfg := mkcfg false false.
+Definition pre_fix : cfg := mkcfg true true.
 
 Inductive op :=
 | Fund (a : N) (x : Z)                      (* environment: a voucher is minted to [a] (coin-origin denominations only) *)
@@ -248,7 +249,14 @@ Section Model.
       | e => (s, e)
       end end.
 
-  (** evm_hooks.go PostTxProcessing, one log; [None] = panic (supply overflow) *)
+  (** evm_hooks.go PostTxProcessing, one log; [None] = panic (supply overflow).
+      Checks, in the code's order: three topics and the Transfer event id with
+      decodable data ([lk = LTransfer]), positive amount, the emitting contract is
+      a registered pair, [to] = module address, pair enabled.  The code does NOT
+      look at [from] (it only is the recipient of the coins; a blocked recipient
+      makes the bank send fail, which the hook ignores), does not compare any
+      balance and does not look at the token's own behaviour: for an externally
+      owned pair the log alone mints. *)
   Definition hook_log (s : st T) (l : log) : option (st T) :=
     match lk l with
     | LTransfer =>
